@@ -94,7 +94,15 @@ def writes : Instr → List Nat
   | .setDisc v _ _ => [v]
   | .drop p _ => [p.var]
 
+/-- the instruction reads through a variant below a field (`x.f.V.i`): the semantics knows the
+    active variant of whole variables only, so such a read cannot be justified (the compiler
+    reads variant fields out of variables only) -/
+def deepVariantRead : Instr → Bool
+  | .assign _ _ (.clone p) => p.proj.tail.any (fun | .vfld _ _ => true | .fld _ => false)
+  | _ => false
+
 def vInstr (it : Item) (a : VState) (i : Instr) : Option VState :=
+  if deepVariantRead i then none else
   match variantRead it i with
   | some (x, v) => if vget a x = some v then some (vkills a (writes i)) else none
   | none => some (vkills a (writes i))
@@ -188,9 +196,10 @@ def vFirstBad (it : Item) : VState → List Instr → Option (Nat × Nat × Opti
     match vInstr it a i with
     | some a' => vFirstBad it a' is
     | none =>
-      match variantRead it i with
-      | some (x, v) => some (x, v, vget a x)
-      | none => none
+      match variantRead it i, i with
+      | some (x, v), _ => some (x, v, vget a x)
+      | none, .assign _ _ (.clone p) => some (p.var, 0, none)
+      | none, _ => none
 
 def vpropagate (it : Item) : Nat → List (Nat × VState) → VCert → VVerdict
   | 0, _, cert => .ok cert
